@@ -68,6 +68,22 @@ func NewPool(evidenceDB dbm.DB, stateDB sm.Store, blockStore BlockStore) (*Pool,
 		consensusBuffer: make([]duplicateVoteSet, 0),
 	}
 
+	// The block at the state's height may have been applied by the ABCI handshake
+	// (a crash after the block was saved and before the state was). That replay
+	// runs without an evidence pool, so the evidence in the block has not been
+	// marked as committed here: it would be proposed - and accepted by this node -
+	// a second time. Mark it now; for a block this pool has seen it changes nothing.
+	if bs, ok := blockStore.(interface {
+		LoadBlock(height int64) *types.Block
+	}); ok && state.LastBlockHeight > 0 {
+		meta := blockStore.LoadBlockMeta(state.LastBlockHeight)
+		if meta != nil && len(meta.Header.EvidenceHash) > 0 && !bytes.Equal(meta.Header.EvidenceHash, types.EvidenceList{}.Hash()) {
+			if block := bs.LoadBlock(state.LastBlockHeight); block != nil {
+				pool.markEvidenceAsCommitted(block.Evidence.Evidence)
+			}
+		}
+	}
+
 	// if pending evidence already in db, in event of prior failure, then check for expiration,
 	// update the size and load it back to the evidenceList
 	pool.pruningHeight, pool.pruningTime = pool.removeExpiredPendingEvidence()
